@@ -651,7 +651,8 @@ impl ErasedNode for Node {
             Kind::MapRef(mapref) => {
                 // don't run child_changed on our parents, because we already did that in OUR child_changed.
                 self.value_opt.replace(None);
-                self.maybe_change_value_manual(None, mapref.did_change.get(), false, state)
+                /* The flag is consumed here; [child_changed] only ever raises it. */
+                self.maybe_change_value_manual(None, mapref.did_change.replace(false), false, state)
             }
             Kind::MapWithOld(map) => {
                 let input = map.input.value_as_any().unwrap();
@@ -1323,7 +1324,10 @@ impl ErasedNode for Node {
                 let did_change = self_old.map_or(true, |old| {
                     !self.cutoff.borrow_mut().should_cutoff(old, self_new)
                 });
-                mapref.did_change.set(did_change);
+                /* Do not lower a flag that is already raised: we may be stale for an older reason
+                (we became necessary again after our input changed) that this round's equal
+                projection says nothing about. */
+                mapref.did_change.set(mapref.did_change.get() || did_change);
                 // now we propagate to parent
                 // (but first, set the only_in_debug stuff & recomputed_at <- t.stabilisation_num)
                 let pci = self.parent_child_indices.borrow();
